@@ -43,6 +43,9 @@ type Spec struct {
 	// FalseEntries: the map handed to the patcher also has an explicit `false` entry for every file
 	// that is not selected (a caller writing wl[i] = needsPatching(i)); the selected set is the same
 	FalseEntries bool `json:"false_entries,omitempty"`
+	// InPlace (with StopAt): the two sessions apply in place, each with a brand-new overlay bowl (a bowl that
+	// has state to lose between sessions) onto a copy of the old build
+	InPlace bool `json:"in_place,omitempty"`
 }
 
 type recBowl struct {
@@ -252,7 +255,7 @@ func check(s Spec) h.Result {
 	}
 	nt := len(wl) > 0 && adjacent
 	if s.StopAt > 0 && s.Many == 0 {
-		if m := stopAndResume(s, patch, od, filepath.Join(d, "out2"), wl, given, wantReads, dp, want, &cl); m != "" {
+		if m := stopAndResume(s, pair.Old, patch, od, filepath.Join(d, "out2"), wl, given, wantReads, dp, want, &cl); m != "" {
 			return h.Result{Fail: m, Classes: cl}
 		}
 	}
@@ -282,7 +285,7 @@ func (sc *stopper) Save(c *patcher.Checkpoint) (patcher.AfterSaveAction, error) 
 
 // stopAndResume applies the patch with the whitelist in two sessions and checks the same things as the
 // one-shot application, summed over both sessions.
-func stopAndResume(s Spec, patch []byte, od, out string, wl, given map[int64]bool, wantReads map[int64]bool, dp *h.DecodedPatch, want h.Disk, cl *[]string) string {
+func stopAndResume(s Spec, oldTree h.Tree, patch []byte, od, out string, wl, given map[int64]bool, wantReads map[int64]bool, dp *h.DecodedPatch, want h.Disk, cl *[]string) string {
 	calls := map[int64]int{}
 	var touched int64
 	var ck []byte
@@ -297,10 +300,25 @@ func stopAndResume(s Spec, patch []byte, od, out string, wl, given map[int64]boo
 			st.stopAt = s.StopAt
 		}
 		p.SetSaveConsumer(st)
-		rp := &recPool{Pool: fspool.New(p.GetTargetContainer(), od), reads: map[int64]int{}}
-		fb, err := bowl.NewFreshBowl(bowl.FreshBowlParams{SourceContainer: p.GetSourceContainer(), TargetContainer: p.GetTargetContainer(), TargetPool: rp, OutputFolder: out})
+		oldAt := od
+		if s.InPlace {
+			oldAt = out
+			if session == 0 {
+				if err := oldTree.Write(out); err != nil {
+					return ""
+				}
+				*cl = append(*cl, "whitelist:stopped-and-resumed-in-place")
+			}
+		}
+		rp := &recPool{Pool: fspool.New(p.GetTargetContainer(), oldAt), reads: map[int64]int{}}
+		var fb bowl.Bowl
+		if s.InPlace {
+			fb, err = bowl.NewOverlayBowl(bowl.OverlayBowlParams{SourceContainer: p.GetSourceContainer(), TargetContainer: p.GetTargetContainer(), OutputFolder: out, StageFolder: out + ".stage", Consumer: h.Quiet()})
+		} else {
+			fb, err = bowl.NewFreshBowl(bowl.FreshBowlParams{SourceContainer: p.GetSourceContainer(), TargetContainer: p.GetTargetContainer(), TargetPool: rp, OutputFolder: out})
+		}
 		if err != nil {
-			return fmt.Sprintf("NewFreshBowl: %v", err)
+			return fmt.Sprintf("new bowl: %v", err)
 		}
 		rb := &recBowl{Bowl: fb, writers: map[int64]int{}, transp: map[int64]int{}}
 		var c *patcher.Checkpoint
@@ -393,6 +411,7 @@ var prop = h.Prop[Spec]{
 		s.FalseEntries = rapid.IntRange(0, 3).Draw(t, "false-entries") == 0
 		if rapid.IntRange(0, 2).Draw(t, "stop-and-resume") == 0 {
 			s.StopAt = rapid.IntRange(1, 4).Draw(t, "stop-at")
+			s.InPlace = rapid.IntRange(0, 2).Draw(t, "in-place") == 0
 			// a multi-block, multi-edit file first in the new build, so that checkpoints are offered inside it
 			oc := h.Content{{Src: 20, Len: rapid.IntRange(3, 8).Draw(t, "big-blocks")*h.BS + 77}}
 			nc := h.EditContent(t, oc, rapid.IntRange(3, 8).Draw(t, "big-edits"), nil)
